@@ -13,6 +13,7 @@ pub struct Outcome {
     pub steps: u64,
     pub hidden_compared: u64,
     pub drifts: u64,
+    pub short_reads: u64,
     pub drift_samples: Vec<Value>,
     pub drift_sites: Vec<(usize, usize)>,
     pub violations: Vec<Value>,
@@ -55,7 +56,7 @@ fn hidden_matches(stack: Stack, to: &Value, real: &[(&'static str, i64)]) -> Opt
 
 pub fn run(runs: &[Value], max_samples: usize) -> Outcome {
     let mut out = Outcome {
-        runs: 0, steps: 0, hidden_compared: 0, drifts: 0,
+        runs: 0, steps: 0, hidden_compared: 0, drifts: 0, short_reads: 0,
         drift_samples: vec![], drift_sites: vec![], violations: vec![], samples: vec![],
     };
     for (ri, run) in runs.iter().enumerate() {
@@ -151,8 +152,34 @@ pub fn run(runs: &[Value], max_samples: usize) -> Outcome {
                                 violation = Some(json!({"kind": "premature-eof", "abs": abs, "L": l}));
                             }
                             abs += k;
-                            if !prop_level && lab.get("k").and_then(Value::as_i64) != Some(k as i64) {
-                                diverged = true; // legal short read the model did not predict
+                            // a legal short read the model did not predict: the model's read is refined by several
+                            // real reads of the rest of the same buffer, until the model's count or the end
+                            let mk = lab.get("k").and_then(Value::as_i64).unwrap_or(k as i64) as usize;
+                            if !prop_level && violation.is_none() && k > 0 && k < mk {
+                                out.short_reads += 1;
+                                let mut tot = k;
+                                while tot < mk && violation.is_none() {
+                                    match guarded(|| reader.read(&mut buf[tot..])) {
+                                        Ok(Ok(k2)) => {
+                                            let want = &plain[abs.min(l)..(abs + k2).min(l)];
+                                            if abs + k2 > l || tot + k2 > n {
+                                                violation = Some(json!({"kind": "read-past-end", "abs": abs, "k": k2, "L": l}));
+                                            } else if &buf[tot..tot + k2] != want {
+                                                violation = Some(json!({"kind": "wrong-bytes", "abs": abs, "k": k2,
+                                                    "first_bad": cells::common_prefix(&buf[tot..tot + k2], want)}));
+                                            } else if k2 == 0 {
+                                                violation = Some(json!({"kind": "premature-eof", "abs": abs, "L": l}));
+                                            }
+                                            abs += k2;
+                                            tot += k2;
+                                        }
+                                        Ok(Err(e)) => violation = Some(json!({"kind": "spurious-error", "abs": abs, "got": e.to_string()})),
+                                        Err(p) => violation = Some(json!({"kind": "panic", "abs": abs, "got": p})),
+                                    }
+                                }
+                                got = json!({"res": "ok", "k": tot, "from": abs - tot, "in_pieces": true});
+                            } else if !prop_level && lab.get("k").and_then(Value::as_i64) != Some(k as i64) {
+                                diverged = true; // more than the model predicts, or 0 where it predicts data (a violation above)
                             }
                         }
                         Ok(Err(e)) => {
@@ -213,7 +240,7 @@ pub fn main(args: &[String]) {
     let o = run(&runs, 3);
     write_json(&args[1], &json!({
         "runs": o.runs, "steps": o.steps, "hidden_compared": o.hidden_compared,
-        "drifts": o.drifts, "drift_samples": o.drift_samples, "drift_sites": o.drift_sites,
+        "drifts": o.drifts, "short_reads_refined": o.short_reads, "drift_samples": o.drift_samples, "drift_sites": o.drift_sites,
         "violations": o.violations, "samples": o.samples,
         "constants": mla::verif::constants().iter().map(|(k, v)| (k.to_string(), json!(v))).collect::<serde_json::Map<_, _>>(),
     }));
